@@ -19,7 +19,7 @@ from pyvc.values import AbsObj, Arr, Obj, Opaque, PDict, PList, SV, mk, sym, to_
 # native: sequences of public-API operations on a real DrillholeGroup, compared with a model
 # ------------------------------------------------------------------------------------------
 
-OPS = ("add", "update", "remove", "reopen", "add_nan")
+OPS = ("add", "update", "remove", "reopen", "add_nan", "add_text", "update_text")
 
 
 def _file_tiling(path):
@@ -112,6 +112,11 @@ def run_history(case):
                     got = hole[0].get_data(dname)
                     if len(got) != 1:
                         return f"{where}: {hname}/{dname} found {len(got)} times"
+                    if exp.dtype.kind == "U":
+                        v = np.asarray(got[0].values).astype(str)
+                        if v.shape != exp.shape or v.tolist() != exp.tolist():
+                            return f"{where}: {hname}/{dname} reads {v.tolist()} but {exp.tolist()} was written"
+                        continue
                     v = np.asarray(got[0].values, dtype=float)
                     if v.shape != exp.shape or not np.allclose(v, exp, equal_nan=True, rtol=1e-6):
                         return f"{where}: {hname}/{dname} reads {v.tolist()} but {exp.tolist()} was written"
@@ -134,6 +139,21 @@ def run_history(case):
                     vals[3] = np.nan
                 hole.add_data({name: {"depth": depths, "values": vals.copy()}})
                 model[hname][name] = vals
+            elif op == "add_text":
+                tname = name + "_txt"
+                if tname in model[hname]:
+                    continue
+                # later texts are longer than every earlier one (fixed-width text columns must widen)
+                vals = np.array([("w" * (step + 1 + 2 * h)) + str(i) for i in range(4)])
+                hole.add_data({tname: {"depth": depths, "values": vals.copy(), "type": "text"}})
+                model[hname][tname] = vals
+            elif op == "update_text":
+                tname = name + "_txt"
+                if tname not in model[hname]:
+                    continue
+                vals = np.array([("longer-" * (step + 1)) + str(i + h) for i in range(4)])
+                hole.get_data(tname)[0].values = vals.copy()
+                model[hname][tname] = vals
             elif op == "update":
                 if name not in model[hname]:
                     continue
@@ -186,7 +206,7 @@ class ConcatHistories(Contract):
     symbolic = False
     has_native = True
     props = ("C04",)
-    bounded_scope = "2 holes x data names {Au, Cu}; operation sequences of length <= 4 (quick: 60 seeded + 12 fixed; thorough: 600) over add / add-with-NaN / update / remove / re-open; both format versions; per-hole read-back after every step, raw file tiling after every close"
+    bounded_scope = "2 holes x data names {Au, Cu}; operation sequences of length <= 4 (quick: 60 seeded + 16 fixed; thorough: 600) over add / add-with-NaN / add-text (each text longer than all earlier ones) / update / update-text / remove / re-open; both format versions; per-hole read-back after every step, raw file tiling after every close"
 
     FIXED = [
         [("add", 0, "Au"), ("add", 1, "Au"), ("remove", 0, "Au"), ("reopen", 0, "")],
@@ -195,6 +215,8 @@ class ConcatHistories(Contract):
         [("add_nan", 0, "Au"), ("add_nan", 1, "Au"), ("reopen", 0, ""), ("update", 1, "Au")],
         [("add", 0, "Au"), ("add", 0, "Cu"), ("update", 0, "Au"), ("remove", 0, "Cu"), ("reopen", 0, "")],
         [("add", 0, "Au"), ("add", 1, "Au"), ("update", 0, "Au"), ("update", 1, "Au"), ("reopen", 0, ""), ("remove", 0, "Au"), ("reopen", 0, "")],
+        [("add_text", 0, "Au"), ("add_text", 1, "Au"), ("reopen", 0, ""), ("update_text", 0, "Au"), ("reopen", 0, "")],
+        [("add_text", 0, "Au"), ("add", 0, "Au"), ("add_text", 1, "Au"), ("update_text", 1, "Au"), ("add_text", 1, "Cu"), ("reopen", 0, "")],
     ]
 
     def native_cases(self, tier, rng):
